@@ -126,6 +126,13 @@ def _lazy_getters(prog, ci):
     out = []
     for c in prog.mro(ci):
         for name, fn in list(c.getters.items()) + [(n, f) for n, f in c.methods.items() if n == 'create_pipelines']:
+            try:
+                # a lazy-update body shared through a private helper (self._setting('_field')) is read where it is called
+                from ..inline import prep, class_lookup
+                keep_ = tuple(n_ for k_ in prog.mro(ci) for n_ in k_.methods if n_.startswith(('_update', '_clear', 'create')))
+                fn = prep(fn, class_lookup(prog, c), keep=keep_)
+            except Exception:
+                pass
             for st in fn.body:
                 if isinstance(st, ast.If) and isinstance(st.test, ast.Compare) and isinstance(st.test.ops[0], ast.Is) \
                         and norm(st.test.comparators[0]) == 'None' and self_chain(st.test.left):
